@@ -19,7 +19,52 @@ KINDS = ("key", "token", "edb", "result")
 
 
 def plan(tier, seed):
-    return sse.scheme_shards(tier, per_scheme_quick=2, per_scheme_thorough=3, budget_quick=12, budget_thorough=220)
+    specs = sse.scheme_shards(tier, per_scheme_quick=2, per_scheme_thorough=3, budget_quick=12, budget_thorough=220)
+    # wire formats at extreme widths: keyword limits of hundreds to ~2000 bytes (SSE-1 / SSE-2 trapdoors and table
+    # addresses become integers of thousands of digits), long labels and PRF outputs elsewhere; tiny databases
+    specs.append({"name": "wide-parameters", "kind": "wide", "budget_s": 100 if tier == "quick" else 600})
+    return specs
+
+
+WIDE = [("CGKO06.SSE2", {"param_l": 1800, "param_max_file_size": 64}), ("CGKO06.SSE2", {"param_l": 300}),
+        ("CGKO06.SSE1", {"param_l": 600, "param_s": 16}), ("CGKO06.SSE1", {"param_l": 2000, "param_s": 8}),
+        ("CT14.Pi", {"param_l": 200, "param_k": 128}), ("ANSS16.Scheme3", {"param_l": 256, "param_l_prime": 300}),
+        ("CJJ14.PiPack", {"param_identifier_size": 64, "param_B": 3}),
+        ("DP17.Pi", {"param_identifier_size": 100, "param_L": 2}),
+        ("CJJ14.PiPtr", {"param_identifier_size": 200, "param_B": 2, "param_b": 2}),
+        ("CJJ14.Pi2Lev", {"param_identifier_size": 64, "param_B": 4, "param_b": 4, "param_B_prime": 4, "param_b_prime": 4})]
+
+
+def run_wide(spec, acc, ctx):
+    rng = ctx.rng
+    for scheme, over in WIDE:
+        if ctx.out_of_time():
+            break
+        cfg = gen.default_config(scheme)
+        cfg.update(over)
+        cid = "wide:" + ",".join(f"{k.replace('param_', '')}={v}" for k, v in sorted(over.items()))
+        try:
+            cp = gen.caps(scheme, cfg)
+            lens = [3, 2, 1]
+            kmin = min(cp["kw_limit"], 40) if scheme in ("CGKO06.SSE1", "CGKO06.SSE2") else 1
+            db, info = gen.db_from_lens(rng, scheme, cfg, lens, "wide", kw_min=1, kw_max=None)
+            if scheme in ("CGKO06.SSE1", "CGKO06.SSE2"):
+                # one keyword of the full permitted length
+                w0 = next(iter(db))
+                db[bytes([65]) + rng.randbytes(cp["kw_limit"] - 1)] = db.pop(w0)
+        except Exception as e:
+            acc.note(f"wide {scheme}: no database: {exc_site(e)}")
+            continue
+        # a configuration this wide may be refused by the scheme itself; only an accepted one is judged
+        try:
+            sse.loader(scheme).SSEScheme(copy.deepcopy(cfg))
+        except Exception as e:
+            acc.count("wide.refused_by_the_scheme")
+            acc.note(f"wide {scheme} {over}: refused ({type(e).__name__})")
+            continue
+        acc.count("wide.cases")
+        if run_case(scheme, cid, cfg, "wide", db, acc, rng):
+            acc.add("distinct", sse.case_fp(scheme, cid, db))
 
 
 def run_case(scheme, cid, cfg, cls, db, acc, rng):
@@ -139,6 +184,9 @@ def run_case(scheme, cid, cfg, cls, db, acc, rng):
 
 
 def run_shard(spec, acc, ctx):
+    if spec.get("kind") == "wide":
+        run_wide(spec, acc, ctx)
+        return
     scheme = spec["scheme"]
     first = True
     for cid, cfg, cls, db, info in sse.iter_cases(spec, ctx, scales=[6, 16, 40],
@@ -184,6 +232,7 @@ def finish(m, tier, seed):
         "exhaustive": False,
         "per_scheme": per,
         "pipeline_searches": c.get("pipeline.searches", 0),
+        "wide_parameter_cases": c.get("wide.cases", 0),
         "setup_failed": c.get("setup_failed", 0),
     }
     return {"coverage": cov, "inconclusive": inc,
